@@ -297,20 +297,9 @@ impl LongTermCredentialClient {
             return Err(IntegrityError::Discarded);
         };
 
-        // The response MAY include a MESSAGE-INTEGRITY or MESSAGE-INTEGRITY-SHA256
-        // attribute, using the previous NONCE to calculate it
-        if message_integrity.is_some() || message_integrity_sha256.is_some() {
-            authenticate_message(
-                &mut self.validator,
-                raw_buffer,
-                &params.key,
-                params.integrity,
-                msg,
-                message_integrity,
-                message_integrity_sha256,
-            )?;
-        }
-
+        // Everything that can make this response unusable is checked before
+        // the response is authenticated, a discarded response must not leave
+        // any trace
         if !can_be_echoed(&params.realm, &nonce) {
             debug!(
                 "[{:?}] Nonce attribute is too long to be echoed.",
@@ -326,7 +315,7 @@ impl LongTermCredentialClient {
                 .security_features()
                 .map(|flags| flags.contains(StunSecurityFeatures::UserNameAnonymity))
                 .unwrap_or(false);
-        params.user_hash = if user_anonymity {
+        let user_hash = if user_anonymity {
             Some(create_user_hash_attr(
                 msg.transaction_id(),
                 &self.user_name,
@@ -335,6 +324,22 @@ impl LongTermCredentialClient {
         } else {
             None
         };
+
+        // The response MAY include a MESSAGE-INTEGRITY or MESSAGE-INTEGRITY-SHA256
+        // attribute, using the previous NONCE to calculate it
+        if message_integrity.is_some() || message_integrity_sha256.is_some() {
+            authenticate_message(
+                &mut self.validator,
+                raw_buffer,
+                &params.key,
+                params.integrity,
+                msg,
+                message_integrity,
+                message_integrity_sha256,
+            )?;
+        }
+
+        params.user_hash = user_hash;
 
         // Update Nonce and retry with a new transaction
         params.nonce = nonce;
